@@ -63,9 +63,10 @@ Print Assumptions C50_tar_modes.
 (* literal path filters, file level: a filter list without trailing slashes,
    none lying strictly below the path p, selects a file / link / gitlink p for
    go-git exactly when git's pathspec matching selects it *)
-Theorem C50_filter_file_agree : forall p fs,
+Theorem C50_filter_file_agree : forall n p fs,
+  match n with NDir _ => false | _ => true end = true ->
   forallb (fun f => negb (ends_with_slash f) && negb (has_prefix f (p ++ [SLASH]))) fs = true ->
-  fs <> [] -> matches p fs = git_sel fs p.
+  fs <> [] -> matches p fs = git_sel n fs p.
 Proof. exact match_file_agree. Qed.
 Print Assumptions C50_filter_file_agree.
 
